@@ -45,6 +45,7 @@ import Verif.Lemmas.Funcs.FcW
 import Verif.Lemmas.Funcs.TTHEncode
 import Verif.Lemmas.Funcs.BufioxR
 import Verif.Lemmas.Funcs.BufioxW
+import Verif.Lemmas.Funcs.BufioxRSD
 import Verif.Lemmas.Funcs.StrMapEq
 namespace Verif.FuncsEq
 
